@@ -10,7 +10,7 @@ P = ['C06', 'C01']
 def build(m):
     m.classes['Delimiter'] = {'type': STR, 'number': INT, 'active': BOOL, 'start': INT, 'end': INT,
                               'open': BOOL, 'close': BOOL, '__has_open': BOOL, '__has_close': BOOL,
-                              'orig_number': INT}   # orig_number: ghost, the run's original length
+                              'orig_number': INT}
     m.optional_fields |= {('Delimiter', 'open'), ('Delimiter', 'close')}
     ns = m.namespaces.setdefault(MOD, {})
     for fn in ('is_opener', 'is_closer', 'is_left_delimiter', 'is_right_delimiter', 'preceded_by',
@@ -62,11 +62,12 @@ def build(m):
     m.add(Contract(MOD + ':Delimiter.__init__', [('self', DL), ('start', INT), ('end', INT), ('string', STR)],
                    requires=RANGE + ["not field(self, '__has_open')", "not field(self, '__has_close')"],
                    ensures=['DELIM_OK(self)', 'self.type == string[start:end]', 'self.active',
+                            'self.orig_number == end - start',
                             "implies(self.type.startswith('*') or self.type.startswith('_'), EMPH(self))",
                             "implies(EMPH(self), self.open == SPEC_CAN_OPEN(string[start], PREV(start, string), NEXT(end, string)))",
                             "implies(EMPH(self), self.close == SPEC_CAN_CLOSE(string[start], PREV(start, string), NEXT(end, string)))"],
                    modifies=['self.type', 'self.number', 'self.active', 'self.start', 'self.end', 'self.open',
-                             'self.close', 'self.__has_open', 'self.__has_close'], prop=P))
+                             'self.close', 'self.__has_open', 'self.__has_close', 'self.orig_number'], prop=P))
     m.methods[('Delimiter', 'remove')] = MOD + ':Delimiter.remove'
     m.add(Contract(MOD + ':Delimiter.remove', [('self', DL), ('n', INT), ('left', BOOL, mk_bool(True))], returns=BOOL,
                    requires=['DELIM_OK(self)', '1 <= n', 'n <= self.number'],
@@ -84,12 +85,8 @@ def build(m):
                 'implies((oo and oc) or (co and cc), (on + cn) % 3 != 0 or (on % 3 == 0 and cn % 3 == 0))')
     m.methods[('Delimiter', 'closed_by')] = MOD + ':Delimiter.closed_by'
     m.add(Contract(MOD + ':Delimiter.closed_by', [('self', DL), ('other', DL)], returns=BOOL, pure=True,
-                   requires=['DELIM_OK(self)', 'DELIM_OK(other)', 'EMPH(self)', 'EMPH(other)',
-                             'self.orig_number >= self.number', 'other.orig_number >= other.number'],
+                   requires=['DELIM_OK(self)', 'DELIM_OK(other)', 'EMPH(self)', 'EMPH(other)'],
                    ensures=[
-                       # what the code computes: same character and rule of three on the CURRENT lengths
-                       'result == (self.type[0] == other.type[0] and SPEC_RULE3(self.open, self.close, self.number, '
-                       'other.open, other.close, other.number))',
                        # the statement: rule of three on the ORIGINAL run lengths
                        ('result == (self.type[0] == other.type[0] and SPEC_RULE3(self.open, self.close, self.orig_number, '
                         'other.open, other.close, other.orig_number))', 'C06'),
